@@ -154,9 +154,18 @@ def run_sem(ctx, sources, obs_eval, log, fuel=3000, shard_size=100, label="sem",
             d.update(e)
     hdr = header(utab, lit_pt, stab, ptab, rtab).replace("Import CorrRun.", "Import CorrRun CorrSem.")
     items, index = [], []
+    obs_eval = list(obs_eval)
+    # a run the budget cut short is repeated with a much larger budget: if it still does not finish although the
+    # semantics does, that is a disagreement like any other (a program that spins where its source does not)
+    cut = [i for i, o in enumerate(obs_eval) if o.startswith("BUDGET")]
+    if cut:
+        again = vlib.nlh("eval", ["3000000 " + vlib.hexs(sources[i]) for i in cut], tag=ctx.prop.lower() + "sb", timeout=600)
+        for i, o in zip(cut, again):
+            obs_eval[i] = o
+            ctx.count("sem-rerun-after-budget")
     for i, (s, o) in enumerate(zip(sources, obs_eval)):
-        if o.startswith("BUDGET") or o.startswith("CRASH") or o.startswith("TIMEOUT"):
-            ctx.count("sem-skipped-budget")
+        if o.startswith("CRASH") or o.startswith("TIMEOUT"):
+            ctx.count("sem-skipped-crash")
             continue
         wv = True if with_value is None else with_value[i]
         c = canon_sem(o)
